@@ -568,3 +568,62 @@ Proof.
   rewrite ci_loop_blank by lia. rewrite ci_loop_eq by lia.
   do 2 f_equal. lia.
 Qed.
+
+(* ---- square brackets are balanced in number; the characters the file reader looks for ---- *)
+Definition sqbal (s : str) : Prop := count_c c_lbr s = count_c c_rbr s.
+
+Lemma sqbal_app a b : sqbal a -> sqbal b -> sqbal (a ++ b).
+Proof. unfold sqbal. intros Ha Hb. rewrite !count_c_app. now rewrite Ha, Hb. Qed.
+
+Lemma sqbal_join ps : (forall p, In p ps -> sqbal p) -> sqbal (join_strs sep_comma ps).
+Proof.
+  induction ps as [|p ps IH]; intros H; [reflexivity|].
+  destruct ps as [|q rest]; [cbn [join_strs]; apply H; now left|].
+  rewrite join_strs_cons2. apply sqbal_app; [apply H; now left|].
+  apply sqbal_app; [reflexivity|]. apply IH. intros x Hx. apply H. now right.
+Qed.
+
+Lemma word_sqbal w : word w -> sqbal w.
+Proof.
+  intros (_ & Hall & _). unfold sqbal. rewrite !count_c_wchars by (reflexivity || assumption). reflexivity.
+Qed.
+
+Theorem gtext_sqbal s : gtext s -> sqbal s.
+Proof.
+  induction 1 as [w Hw|w Hw|f ps Hf Hps IH|ps Hps IH|ps v Hps IH Hv].
+  - now apply word_sqbal.
+  - destruct (wide_atom_facts w Hw) as (_ & _ & Hall & _). unfold sqbal.
+    rewrite !count_c_achars by (reflexivity || assumption). reflexivity.
+  - unfold call_text. apply sqbal_app; [apply word_sqbal; now apply simple_atom_word|].
+    change (c_lpar :: join_strs sep_comma ps ++ [c_rpar]) with ([c_lpar] ++ join_strs sep_comma ps ++ [c_rpar]).
+    apply sqbal_app; [reflexivity|]. apply sqbal_app; [now apply sqbal_join|reflexivity].
+  - unfold list_text, sqbal. cbn [count_c]. rewrite !count_c_app. rewrite (sqbal_join ps IH).
+    cbn [count_c]. change (c_lbr =? c_lbr) with true. change (c_rbr =? c_rbr) with true.
+    change (c_lbr =? c_rbr) with false. change (c_rbr =? c_lbr) with false. lia.
+  - unfold list_text_bar, sqbal. cbn [count_c]. rewrite !count_c_app. rewrite (sqbal_join ps IH).
+    rewrite (word_sqbal v Hv). cbn [count_c sep_bar].
+    change (c_lbr =? c_lbr) with true. change (c_rbr =? c_rbr) with true.
+    change (c_lbr =? c_rbr) with false. change (c_rbr =? c_lbr) with false.
+    change (32 =? c_lbr) with false. change (32 =? c_rbr) with false.
+    change (124 =? c_lbr) with false. change (124 =? c_rbr) with false. lia.
+Qed.
+
+(* not a period, `#`, `%`, `/` or a double quote *)
+Definition fileplain (c : N) : bool :=
+  negb (c =? 46) && negb (c =? 35) && negb (c =? 37) && negb (c =? 47) && negb (c =? 34).
+
+Lemma tchar_fileplain c : tchar c = true -> fileplain c = true.
+Proof.
+  intros H. apply tchar_cases in H.
+  destruct H as [H|[->|[->|[->|[->|[->|[->| ->]]]]]]]; try reflexivity.
+  apply wchar_range in H. unfold fileplain.
+  assert (E1 : (c =? 46) = false) by (apply N.eqb_neq; lia).
+  assert (E2 : (c =? 35) = false) by (apply N.eqb_neq; lia).
+  assert (E3 : (c =? 37) = false) by (apply N.eqb_neq; lia).
+  assert (E4 : (c =? 47) = false) by (apply N.eqb_neq; lia).
+  assert (E5 : (c =? 34) = false) by (apply N.eqb_neq; lia).
+  now rewrite E1, E2, E3, E4, E5.
+Qed.
+
+Lemma tchars_fileplain s : Forall (fun c => tchar c = true) s -> Forall (fun c => fileplain c = true) s.
+Proof. intros H. eapply Forall_impl; [|exact H]. intros c Hc. now apply tchar_fileplain. Qed.
